@@ -16,3 +16,26 @@ Theorem PIPE_deprecated_spellings :
   forall nonstr (which : string -> bool) o t, build nonstr o (respell_tree which t) = build nonstr o t.
 Proof. exact build_respell. Qed.
 Print Assumptions PIPE_deprecated_spellings.
+
+(* ---------- C19: one strategic-merge patch, two spellings, two builds (finding PIPE/patch-spelling) ----------
+   `patches: [{path: p}]` applies the patch document as it is (Resource.ApplySmPatch); with a `target:` - and for
+   the deprecated `patchesStrategicMerge:`, which goes the same way (resWrangler.ApplySmPatch) - the labels and
+   annotations of the patch are first rewritten through map[string]string: a label deleted with `null` comes out as
+   the STRING "null", a numeric value as a string.  So the respelling `patchesStrategicMerge: [p]` ->
+   `patches: [{path: p}]` of `kustomize edit fix` is not build-preserving.  Both builds are of the model and are
+   confirmed against krusty.Run by the correspondence (corpus/PIPE/case_patchspelling_*.json). *)
+From KV Require Res.PipelinePatchProofs.
+Theorem PIPE_patch_spelling_without_target :
+  PipelinePatchProofs.labels_of
+    (build (fun s => String.eqb s "1") PSortNone (PipelinePatchProofs.spelling_tree None)) =
+  [("n"%string, Scalar TInt SPlain "1")].
+Proof. exact PipelinePatchProofs.spelling_without_target. Qed.
+Print Assumptions PIPE_patch_spelling_without_target.
+
+Theorem PIPE_patch_spelling_with_target :
+  PipelinePatchProofs.labels_of
+    (build (fun s => String.eqb s "1") PSortNone
+           (PipelinePatchProofs.spelling_tree (Some PipelinePatchProofs.kind_only))) =
+  [("keep"%string, Scalar TStr SPlain "null"); ("n"%string, Scalar TStr SDouble "1")].
+Proof. exact PipelinePatchProofs.spelling_with_target. Qed.
+Print Assumptions PIPE_patch_spelling_with_target.
